@@ -8,10 +8,13 @@ TEXT = {
                  "not owned and is offered by a connected peer is never stuck: a Reserved piece has a live, unchoked peer that was really asked for it and "
                  "whose completion lowers the number of missing pieces; a Missing piece is answered with a request when the offering peer unchokes, and "
                  "completing that lowers the number; (T3) no event raises the number of missing pieces, which is 0 exactly when all are owned; "
-                 "(T4) in every reachable state extraction has been started iff every piece is owned. "
+                 "(T4) in every reachable state extraction has been started iff every piece is owned; (T5, connection bookkeeping model: candidates, "
+                 "spawn_peer_handler, try_next_candidate, handle_kill_req, spawn_tracker) in every reachable state no address a tracker ever listed is "
+                 "forgotten (queued, or a connection task was started, or dropped because that address was connected), every dry peer or lost connection "
+                 "takes the next candidate while pieces are missing, and a lost connection with no candidate left leaves a tracker task held. "
                  "Not proved: that the real tasks take these steps (fairness, sockets, timers) - observed by end-to-end runs of the real Session.",
         "note": KERNEL + "the liveness half is a possibility-of-progress theorem about the manager model plus monotonicity, not a fairness proof of the tokio "
-                "runtime; the handler-level block exchange is covered by C10/C01/C06 separately; e2e runs: 14 per quick check, 700 in the thorough tier; the manager model under T2/T3 is tied by manager event histories (25 per e2e run).",
+                "runtime; the handler-level block exchange is covered by C10/C01/C06 separately; e2e runs: 14 per quick check, 700 in the thorough tier; the manager model under T2/T3 is tied by manager event histories (25 per e2e run), the connection bookkeeping model under T5 by histories with tracker replies, failures and KillReq on the real Session (5 per e2e run; T5 evaluated on the implementation's snapshots first).",
         "technique": "Lean 4 proof (composition of C01/C03/C12/C13 models: verified-store refinement; progress measure over reachable manager states) + end-to-end differential runs of the real session",
     },
     "C19": {
@@ -22,7 +25,12 @@ TEXT = {
                  "the manager never waits for a retrying tracker (invariant by induction over reachable states), no deadlock before the peers are "
                  "contacted, every step decreases a measure, so every maximal execution has at most 9k+6 steps and ends with the peers contacted (T4); "
                  "for the code as it was (join after every command) the model exhibits the blocked manager at k = 1 and a deadlock at "
-                 "k = CHANNEL_SIZE + 2 (decide). One answered announce (HTTP status, body bytes) hands the manager exactly that reply or counts as a "
+                 "k = CHANNEL_SIZE + 2 (decide). Part 2b/3 (T5, T6): handling a good reply in any manager state contacts the last 11 - k candidates "
+                 "(k = peers we are interested in), each has a connection afterwards, the rest stay queued in order; with any number of lost "
+                 "connections that ask for a new announce, any pattern of failing and succeeding announces and any interleaving, the manager never "
+                 "awaits a tracker task that is still retrying and at most one task announces (invariant over the multi-task model); the code as it "
+                 "was is refuted (second tracker task replaces the held handle, manager blocked through every schedule in which that task keeps failing). "
+                 "One answered announce (HTTP status, body bytes) hands the manager exactly that reply or counts as a "
                  "failed announce (exchange theorems), tied by real loopback exchanges of TrackerClient::run. Totality of reply parsing is observed on "
                  "the real parser (no panic on any generated body).",
         "note": KERNEL + "PARTIAL for part 2: the retry model is hand-abstracted from tokio's spawn/mpsc/JoinHandle semantics and is tied to the real "
